@@ -21,7 +21,9 @@ func lightSys() *sys {
 	model := lightpb.NewModel(
 		lightpb.WithPreset(40, &traits.LightPreset{Name: "dim", Title: "Dimmed"}),
 		lightpb.WithPreset(90, &traits.LightPreset{Name: "bright", Title: "Bright"}),
+		lightpb.WithPreset(5, &traits.LightPreset{Name: "night"}), // configured without a title
 	)
+	server := lightpb.NewModelServer(model)
 	s := &sys{name: "lightpb.Model(presets)"}
 	s.state = func() []proto.Message {
 		b, _ := model.GetBrightness()
@@ -53,6 +55,12 @@ func lightSys() *sys {
 				m.reg(fmt.Sprintf("ListPresets()[%d]", i), p)
 			}
 		}},
+		{name: "DescribeBrightness()", readonly: true, run: func(m *mon, ctx context.Context) {
+			if d, err := server.DescribeBrightness(ctx, &traits.DescribeBrightnessRequest{}); err == nil {
+				m.reg("DescribeBrightness()", d)
+			}
+		}},
+		upd("UpdateBrightness(preset night)", func() *traits.Brightness { return &traits.Brightness{Preset: &traits.LightPreset{Name: "night"}} }),
 		{name: "GetBrightness()", readonly: true, run: func(m *mon, _ context.Context) {
 			b, _ := model.GetBrightness()
 			m.reg("GetBrightness()", b)
